@@ -29,6 +29,10 @@ pub struct Case {
     pub ty: String,
     pub depth: usize,
     pub detail: String,
+    /// a conforming control written in a spelling the properties do not promise (negative hex string):
+    /// exact if accepted, refusal allowed
+    #[serde(default)]
+    pub lenient: bool,
 }
 
 // ---------------------------------------------------------------- positions
@@ -214,13 +218,13 @@ fn gen_case(tape: Vec<u8>) -> Case {
                     }
                 }
             }
-            return Case { doc: doc.render(), model: None, mutation: "undefined-struct-type".into(), ty: undefined.to_string(), depth: 0, detail: format!("{sname}.{}", def.members[mi].0) };
+            return Case { doc: doc.render(), model: None, mutation: "undefined-struct-type".into(), ty: undefined.to_string(), depth: 0, detail: format!("{sname}.{}", def.members[mi].0), lenient: false };
         }
         // graph without members: fall back to an undeclared top-level member
         if let Some(J::Obj(kv)) = at(&mut doc, &[Step::Key("message".into())]) {
             kv.push(("undeclared".into(), J::Num("1".into())));
         }
-        return Case { doc: doc.render(), model: None, mutation: "undeclared-member".into(), ty: model.primary.clone(), depth: 0, detail: "top level".into() };
+        return Case { doc: doc.render(), model: None, mutation: "undeclared-member".into(), ty: model.primary.clone(), depth: 0, detail: "top level".into(), lenient: false };
     }
     let pos = &positions[cands[u.below(cands.len())]];
     let depth = depth_of(pos);
@@ -335,7 +339,8 @@ fn gen_case(tape: Vec<u8>) -> Case {
         assert!(ok, "harness: path resolves in the model");
         m
     });
-    Case { doc: doc.render(), model: model_out, mutation: mutation.to_string(), ty: tyname, depth, detail }
+    let lenient = mutation == "control-integer-in-range" && detail.ends_with("as hex-string") && detail.starts_with('-');
+    Case { doc: doc.render(), model: model_out, mutation: mutation.to_string(), ty: tyname, depth, detail, lenient }
 }
 
 fn judge(c: &Case, cls: &mut Classifier) -> Verdict {
@@ -352,6 +357,10 @@ fn judge(c: &Case, cls: &mut Classifier) -> Verdict {
             return fail("Err", format!("accepted, message hash {}", hex_lower(&mh)), format!("non-conforming document accepted: {} at depth {} ({}, type {}): {docs}", c.mutation, c.depth, c.detail, c.ty));
         }
         (None, Err(_)) => {}
+        (Some(_), Err(_)) if c.lenient => {
+            cls.unspecified("negative-hex-string-control-refused");
+            return Ok(());
+        }
         (Some(_), Err(e)) => return fail("accepted", format!("Err({e})"), format!("conforming control refused: {} ({}, type {}): {docs}", c.mutation, c.detail, c.ty)),
         (Some(m), Ok((ds, mh, dg))) => {
             let Some((wds, wmh, wdg)) = td::expected(m) else {
@@ -396,14 +405,14 @@ fn grid() -> Vec<Case> {
             };
             for (neg, mag, b) in out_of_range(&ty) {
                 for (frag, sp) in spellings(neg, &mag) {
-                    out.push(Case { doc: mk(&frag), model: None, mutation: "integer-out-of-range".into(), ty: ty.name(), depth: 1, detail: format!("{b} as {sp}") });
+                    out.push(Case { doc: mk(&frag), model: None, mutation: "integer-out-of-range".into(), ty: ty.name(), depth: 1, detail: format!("{b} as {sp}"), lenient: false });
                 }
             }
             for (neg, mag, b) in in_range(&ty) {
                 for (frag, sp) in spellings(neg, &mag) {
                     let v = if signed { Val::Int { neg: neg && !mag.is_zero(), mag: mag.clone() } } else { Val::Uint(mag.clone()) };
                     let model = TdModel { graph: graph.clone(), primary: "T".into(), message: Val::Struct(vec![("v".into(), v)]), domain: domain.clone() };
-                    out.push(Case { doc: mk(&frag), model: Some(model), mutation: "control-integer-in-range".into(), ty: ty.name(), depth: 1, detail: format!("{b} as {sp}") });
+                    out.push(Case { doc: mk(&frag), model: Some(model), mutation: "control-integer-in-range".into(), ty: ty.name(), depth: 1, detail: format!("{b} as {sp}"), lenient: neg && !mag.is_zero() && sp == "hex-string" });
                 }
             }
         }
